@@ -75,6 +75,14 @@ def m_ostream_insert(s, av):
     s.stats['stream_inserts'] += 1
     return os_
 
+@model('_ZNSo5writeEPKcl')
+def m_write(s, av):
+    """std::ostream::write: unformatted, no padding"""
+    os_ = s.concretize(av[0], 'address'); p = s.concretize(av[1], 'address'); n = sx(s.concretize(av[2], 'length'), 64)
+    _emit_bytes(s, os_, [s.load(p + i, 1) for i in range(max(n, 0))])
+    s.stats['stream_inserts'] += 1
+    return os_
+
 @model('_ZNSo3putEc')
 def m_put(s, av):
     os_ = s.concretize(av[0], 'address'); c = av[1]
